@@ -4,6 +4,7 @@ package c20
 
 import (
 	"context"
+	"errors"
 	"sync"
 	"testing"
 	"time"
@@ -119,7 +120,11 @@ type request struct {
 	gateB    chan struct{} // driver -> mock: return to the cache code
 	done     chan struct{} // goroutine -> driver: call returned (Ret logged)
 	phase    string        // driver's view: "run" | "atA" | "computed" | "done"
+	fail     bool          // driver -> mock (written before gateA is opened): fail this beacon call
 }
+
+// errBN is what the mock returns for a beacon call the schedule lets fail.
+var errBN = errors.New("beacon node unavailable (scheduled failure)")
 
 type asgKey struct {
 	k       string
@@ -161,8 +166,19 @@ func (g *gatedBN) release(rq *request, v int) {
 	<-rq.gateB
 }
 
+// releaseFail is release for a call the schedule lets fail: no answer is computed.
+func (g *gatedBN) releaseFail(rq *request) {
+	g.tr.Emit(drv.Step{"ev": "Fail", "r": rq.id})
+	rq.computed <- struct{}{}
+	<-rq.gateB
+}
+
 func (g *gatedBN) ProposerDuties(ctx context.Context, opts *eth2api.ProposerDutiesOpts) (*eth2api.Response[[]*eth2v1.ProposerDuty], error) {
 	rq, v := g.gate(ctx, "prop", opts.Epoch, opts.Indices)
+	if rq.fail {
+		g.releaseFail(rq)
+		return nil, errBN
+	}
 	e := int(opts.Epoch)
 	data := []*eth2v1.ProposerDuty{}
 	for _, i := range opts.Indices {
@@ -176,6 +192,10 @@ func (g *gatedBN) ProposerDuties(ctx context.Context, opts *eth2api.ProposerDuti
 
 func (g *gatedBN) AttesterDuties(ctx context.Context, opts *eth2api.AttesterDutiesOpts) (*eth2api.Response[[]*eth2v1.AttesterDuty], error) {
 	rq, v := g.gate(ctx, "att", opts.Epoch, opts.Indices)
+	if rq.fail {
+		g.releaseFail(rq)
+		return nil, errBN
+	}
 	e := int(opts.Epoch)
 	data := []*eth2v1.AttesterDuty{}
 	for _, i := range opts.Indices {
@@ -189,6 +209,10 @@ func (g *gatedBN) AttesterDuties(ctx context.Context, opts *eth2api.AttesterDuti
 
 func (g *gatedBN) SyncCommitteeDuties(ctx context.Context, opts *eth2api.SyncCommitteeDutiesOpts) (*eth2api.Response[[]*eth2v1.SyncCommitteeDuty], error) {
 	rq, v := g.gate(ctx, "sync", opts.Epoch, opts.Indices)
+	if rq.fail {
+		g.releaseFail(rq)
+		return nil, errBN
+	}
 	e := int(opts.Epoch)
 	data := []*eth2v1.SyncCommitteeDuty{}
 	for _, i := range opts.Indices {
@@ -368,6 +392,7 @@ func (d *driver) prepare(st drv.Step) *op {
 			return nil
 		}
 		rq.phase = "run"
+		rq.fail = st["fail"] == true // the schedule's choice: the node fails this call instead of answering
 		return &op{
 			fire: func() {
 				go func() {
